@@ -87,7 +87,7 @@ PROPS["C16"] = {
 # and the hook H3 (row < size && column < size) compiled in.
 PROPS["C19"] = {
     "assumptions": ["H3: DistMatrix::get_unchecked / set_unchecked assert i < size && j < size under cfg(lucid_suggest_verif)"],
-    "outside": "the trigram counters (TrigramIndex::prepare is not executable within memory, DESIGN F12); words longer than "
+    "outside": "the trigram counters on SYMBOLIC titles (MEM-counters uses concrete one-letter titles); words longer than "
                "3-4 characters; matrix capacities other than those listed (growth is covered from arbitrary smaller matrices)",
     "lemmas": [
         {"id": "MEM-matrix", "text": "every get_unchecked/set_unchecked of the distance matrix has row < size and column < size (H3), and "
@@ -99,6 +99,10 @@ PROPS["C19"] = {
                    "dl_laws_1_1_20", "dl_laws_2_1_20"],
          "thorough": ["dl_hist_2_2_6", "dl_hist_2_3_5", "dl_hist_3_3_2", "dl_hist_3_3_3", "dl_hist_3_3_4", "dl_hist_3_3_5", "dl_hist_3_3_7", "dl_hist_4_3_3", "dl_inv_3_1_6",
                       "dl_laws_3_3_20", "dl_laws_4_4_4"]},
+        {"id": "MEM-counters", "text": "TrigramIndex::prepare after the named histories (incl. clear + add): every counts.get_unchecked_mut(ix) is in range "
+                                       "(all CBMC pointer checks selected; concrete one-letter titles)",
+         "bounds": "histories of the instance names", "opts": {"unwind": 6, "timeout": 2400, "mem_gb": 14, "sched_gb": 14},
+         "quick": ["st_hq_add_qa", "st_hq_add_clear_add_qa"], "thorough": ["st_hq_add_clear_qa", "st_hq_add_clear_add_qb"]},
         {"id": "MEM-jaccard", "text": "every unchecked read of the Jaccard merge (simple_similarity) and every buffer access of "
                                       "Jaccard::similarity is in range, from ARBITRARY earlier buffer contents shorter / longer than needed, and from buffers of small CAPACITY (jac_cap: growth path)",
          "bounds": "(la,lb,p1,p2) of the jac_hist / jac_simple instances, (la,lb,cap1,cap2) of jac_cap; all CBMC pointer checks selected",
@@ -286,4 +290,73 @@ PROPS["C04"] = {
          "quick": ["wm_dtypo_5_tr"], "thorough": ["wm_dtypo_5_sub", "wm_dtypo_5_ins", "wm_dtypo_5_del", "wm_dtypo_6_sub", "wm_dtypo_6_del", "wm_dtypo_6_tr"],
          "per_instance": {"wm_dtypo_6_sub": {"mem_gb": 24, "timeout": 3600}, "wm_dtypo_6_del": {"mem_gb": 24, "timeout": 3600}, "wm_dtypo_6_tr": {"mem_gb": 24, "timeout": 3600}}},
     ],
+}
+
+PROPS["C14"] = {
+    "assumptions": WORD_ASSUME + ["the separator between the two words carries class NotAlpha (what set_char_classes assigns to a non-alphabetic character)",
+                                  "glue (NOT solver-decided): given that both pre-filters accept and the distance is within the threshold, word_match's scan records "
+                                  "the full-length pair (decided only for words up to 3 letters), and text_match tries the joined view of two ADJACENT words before "
+                                  "the plain pair (a reading of text.rs:34-66; the text matcher on joined shapes exceeds 28 GB, F14)"],
+    "outside": "the composed word_match on the joined word (>= 4 characters) and text_match's joined attempts themselves - so 'is found' is NOT decided end to end; "
+               "concatenations longer than 5 letters; gaps wider than one character are not claimed by the property",
+    "lemmas": [
+        {"id": "JOIN-title", "text": "two adjacent title words a, b separated by one separator, query = a++b (stem = length, finished): the REAL WordView::join has extent "
+                                     "|a|+1+|b| and stem to its end; the real length_check and jaccard_check accept; the real distance is <= 0.5 and within the 0.21 "
+                                     "threshold; the real WordMatch::split of the full match covers word a entirely and word b entirely",
+         "bounds": "(|a|,|b|) from the instance names, |a|+|b| in 3..5; all chars / classes symbolic",
+         "opts": {"unwind": 9, "timeout": 3000, "checks": "functional", "mem_gb": 10},
+         "quick": ["wm_joint_1_2", "wm_joint_2_1"], "thorough": ["wm_joint_2_2", "wm_joint_1_3", "wm_joint_2_3", "wm_joint_3_2"],
+         "per_instance": {"wm_joint_2_3": {"mem_gb": 20, "timeout": 3600}, "wm_joint_3_2": {"mem_gb": 20, "timeout": 3600}}},
+        {"id": "JOIN-query", "text": "a title word of n >= 3 letters, query = the word spelled as two words at split point s with one separator: pre-filters accept, "
+                                     "distance <= 0.5 and within the threshold, the query-side match splits over the two query words (both parts non-empty)",
+         "bounds": "(n,s) from the instance names, n in 3..5", "opts": {"unwind": 9, "timeout": 3000, "checks": "functional", "mem_gb": 10},
+         "quick": ["wm_joinq_3_1", "wm_joinq_3_2"], "thorough": ["wm_joinq_4_1", "wm_joinq_4_2", "wm_joinq_5_2", "wm_joinq_5_3"],
+         "per_instance": {"wm_joinq_5_2": {"mem_gb": 20, "timeout": 3600}, "wm_joinq_5_3": {"mem_gb": 20, "timeout": 3600}}},
+        dict(SPLIT_SAFE, id="SPLIT-structure"),
+    ],
+}
+
+# ---------------------------------------------------------------------------------------------
+# Store level (possible since the fnv shim's Entry was rewritten, DESIGN F12b): real Store::add /
+# clear / top_ixs / TrigramIndex::add / prepare on CONCRETE one- and two-letter titles, with
+# SYMBOLIC ratings and ids; the matcher is never run.
+ST_OPTS = {"unwind": 6, "timeout": 2400, "checks": "functional", "mem_gb": 14, "sched_gb": 9}
+ST_ASSUME = ["titles are CONCRETE one-word texts (\"a\", \"b\", \"ab\", empty) built directly in the tokeniser's output format; ratings (< 2^31) and ids are symbolic",
+             "Store::records and the index's counter vector are given capacity up front (hook verif_presize): growing a vector from capacity zero inside a struct "
+             "trips a Kani artefact (F13); capacities are not observable",
+             "histories are the ENUMERATED operation sequences of the instance names (up to 5 operations), not all sequences"]
+ST_TOP = {"id": "ST-top", "text": "real Store::top_ixs (the empty-query candidate list) on n records with symbolic ratings: exactly min(limit, n) distinct positions of stored "
+                                   "records, ratings non-increasing, no omitted record rated higher than a listed one, and among equal ratings an omitted record does not "
+                                   "precede a listed one in code-point order of the titles",
+          "bounds": "titles / limit from the instance names: 1-3 records, limit 1..3 (limit 0 with records: F13)", "opts": ST_OPTS,
+          "quick": ["st_top_a_l1", "st_top_ab_l1", "st_top_ab_l3", "st_top_ba_l1", "st_top_aba_l1", "st_top_e_a_l1"],
+          "thorough": ["st_top_aba_l2", "st_top_b_ab_a_l1", "st_top_b_ab_a_l2"]}
+ST_HT = {"id": "ST-top-history", "text": "after the history (add / clear / set limit / set markers / empty-query lookup, as named) the store holds exactly the records added since "
+                                          "the last clear, at their positions, with the current limit, and its empty-query candidate list equals that of a store built from "
+                                          "scratch with those records and that limit - in particular records added after an empty-query search show up, and a changed limit takes effect",
+         "bounds": "histories of the instance names (op codes in store.rs::apply), ratings / ids symbolic", "opts": ST_OPTS,
+         "quick": ["st_ht_add", "st_ht_add_add", "st_ht_top_add", "st_ht_add_top_add", "st_ht_add_top_clear_add", "st_ht_add_add_l1_top_l2", "st_ht_add_clear_add"],
+         "thorough": ["st_ht_add_add_l2_top_l1", "st_ht_add_mark_top_add", "st_ht_add_top_top"]}
+ST_HQ = {"id": "ST-query-history", "text": "after the history the index's candidate list for a one-letter query equals that of a store built from scratch, and every candidate is a "
+                                            "position of a stored record - in particular after clear() nothing of the cleared records is left in the index",
+         "bounds": "histories of the instance names, query \"a\" or \"b\"", "opts": dict(ST_OPTS, sched_gb=14),
+         "quick": ["st_hq_add_qa", "st_hq_add_clear_qa", "st_hq_add_clear_add_qa", "st_hq_add_clear_add_qb"],
+         "thorough": ["st_hq_add_add_qb", "st_hq_add_qa_add_qa"],
+         "per_instance": {"st_hq_add_add_qb": {"mem_gb": 24, "sched_gb": 24}, "st_hq_add_qa_add_qa": {"mem_gb": 24, "sched_gb": 24}}}
+
+PROPS["C12"] = {
+    "assumptions": ST_ASSUME + ["glue (DESIGN §5 C12): Store::search on an empty query scores each listed record (EMPTY-score: no matches, filter keeps it - lemma TM-structure "
+                                "at the empty-query shape), then orders by compare_hits (CMP-order), whose first six components are equal for match-less hits, so the order is "
+                                "rating, then fewer words, then fewer characters; highlight() adds no marker without matches"],
+    "outside": "more than 3 records (4 exceed 14 GB); limit 0; separator-only query STRINGS (they become empty queries only through the tokeniser); the final "
+               "LimitSort / highlight pipeline of Store::search (glued)",
+    "lemmas": [ST_TOP, dict(ST_HT, id="ST-top-current", quick=["st_ht_top_add", "st_ht_add_top_add", "st_ht_add_add_l1_top_l2"], thorough=["st_ht_add_add_l2_top_l1", "st_ht_add_top_clear_add"]),
+               dict(TM_STRUCT, id="EMPTY-score", quick=["tm_r2_q0"], thorough=[])],
+}
+PROPS["C10"] = {
+    "assumptions": ST_ASSUME + ["glue: Store::search reads mutable state in exactly two places - index.prepare(query, limit) and top_ixs() - plus records / limit / dividers, "
+                                "which ARE the abstract state; everything downstream is a function of (record, query, limit, dividers); the scratch buffers' history "
+                                "independence is DL-hist (C16) and JAC-hist (C17)"],
+    "outside": "histories other than the enumerated ones; titles other than the concrete ones; Store::search itself after the history; the registry (lib.rs)",
+    "lemmas": [ST_HT, ST_HQ],
 }
